@@ -799,6 +799,8 @@ def run(ctx):
     p1 = part1_worklists(ctx)
     from checks import c10b
     p2, p3 = c10b.run_parts(ctx, dict(CORPUS))
+    from checks import c10c
+    p4 = c10c.run_bbhash(ctx, dict(CORPUS), c10b.EXTRA)
     return {
         "states": p1["states"],
         "transitions": p1["transitions"],
@@ -822,11 +824,15 @@ def run(ctx):
         "per_program": p1["per_program"],
         "part2_hashseed": p2,
         "part3_fresh_process": p3,
+        "part4_block_set_orders": p4,
         "exhaustive": True,
     }
 
 
 def replay(ctx, item):
+    if item.get("part") == 4:
+        from checks import c10c
+        return c10c.replay(ctx, item)
     if item.get("part") == 2:
         from checks import c10b
         return c10b.replay(ctx, item)
